@@ -1145,3 +1145,587 @@ func ruleZ8(c *Ctx) {
 		c.anchorFail("no store to decoder.s found")
 	}
 }
+
+// ---------- N11: values compared by identity are comparable Go values ----------
+
+func init() {
+	register("N11", "identity comparison cannot panic: CompareDepth falls back to Go's == for values of one type that implement neither CompareSameType nor Cmp; every such Value type of the module is a comparable Go type (a pointer, or a struct/basic type without func, map or slice components) - a func-typed or slice-typed field added to a by-value Value type would make x == y panic at run time ('comparing uncomparable type')", 10, ruleN11)
+	claim("C02", "N11")
+	claim("C11", "N11")
+}
+
+func ruleN11(c *Ctx) {
+	n := 0
+	for _, t := range valueTypes(c.P) {
+		if hasMethod(t, "CompareSameType") || hasMethod(t, "Cmp") {
+			continue
+		}
+		n++
+		key := "identity-compared type " + qualType(t)
+		if _, isPtr := t.(*types.Pointer); isPtr {
+			key = "identity-compared type *" + qualType(t)
+		}
+		if types.Comparable(t) {
+			c.ok(key, "-", "comparable Go type")
+		} else {
+			c.viol(key, "-", fmt.Sprintf("%s has no CompareSameType/Cmp method, so == and != on two such values use Go's interface comparison, but its representation is not comparable (it contains a func, map or slice): the comparison panics in the host", qualType(t)))
+		}
+	}
+	if n < 10 {
+		c.anchorFail("only %d identity-compared Value types found", n)
+	}
+}
+
+// ---------- W10: no shared mutable collection at package level ----------
+
+func init() {
+	register("W10", "no collection is shared by default: the module declares no package-level variable whose type is a mutable Starlark collection (*Dict, *List, *Set) - a shared 'empty' instance handed to every call (an empty **kwargs dict, say) is one object for all threads and all calls, so the first mutation leaks into every later call", 0, ruleW10)
+	claim("C05", "W10")
+	claim("C08", "W10")
+}
+
+func ruleW10(c *Ctx) {
+	for _, pk := range c.P.Pkgs {
+		if !isProdPkg(pk.PkgPath) {
+			continue
+		}
+		sc := pk.Types.Scope()
+		for _, name := range sc.Names() {
+			v, ok := sc.Lookup(name).(*types.Var)
+			if !ok {
+				continue
+			}
+			pt, ok := v.Type().(*types.Pointer)
+			if !ok {
+				continue
+			}
+			pp, tn := namedOf(pt.Elem())
+			if !strings.HasSuffix(pp, "/starlark") || !(tn == "Dict" || tn == "List" || tn == "Set") {
+				continue
+			}
+			key := fmt.Sprintf("package variable %s.%s", relPkg(pk.PkgPath), name)
+			c.viol(key, c.P.Pos(v.Pos()), fmt.Sprintf("%s is a package-level *%s: every thread and every call that receives it shares one mutable collection", name, tn))
+		}
+	}
+	c.note("package-level variables of the module's production packages scanned for mutable collection types")
+}
+
+// ---------- Z9: big-integer constants are serialised with their sign ----------
+
+func init() {
+	register("Z9", "big integers cross the wire with their sign: the program encoder and decoder do not use the magnitude-only big.Int conversions (Bytes, SetBytes, FillBytes, Bits, SetBits); a constant such as -2^63 (a negative big literal, once the compiler folds unary minus) would be reloaded as its absolute value", 1, ruleZ9)
+	claim("C17", "Z9")
+	claim("C15", "Z9")
+}
+
+func ruleZ9(c *Ctx) {
+	n := 0
+	bad := 0
+	for _, fn := range c.P.Funcs {
+		if relPkg(fnPkgPath(fn)) != "internal/compile" {
+			continue
+		}
+		eachInstr(fn, func(in ssa.Instruction) {
+			call, ok := in.(*ssa.Call)
+			if !ok {
+				return
+			}
+			cal := call.Call.StaticCallee()
+			if cal == nil || cal.Signature.Recv() == nil {
+				return
+			}
+			if pp, tn := namedOf(cal.Signature.Recv().Type()); pp != "math/big" || tn != "Int" {
+				return
+			}
+			n++
+			switch cal.Name() {
+			case "Bytes", "SetBytes", "FillBytes", "Bits", "SetBits":
+				bad++
+				c.viol(fmt.Sprintf("%s: big.Int.%s", fnName(fn), cal.Name()), c.P.Pos(call.Pos()), "a magnitude-only conversion of a big integer in package compile: the sign of a negative constant is lost when the program is saved and reloaded")
+			}
+		})
+	}
+	if bad == 0 {
+		c.ok("internal/compile: big.Int conversions keep the sign", "-", fmt.Sprintf("%d big.Int call(s), none magnitude-only", n))
+	}
+	if n == 0 {
+		c.anchorFail("no big.Int call found in package compile (expected the constant codec)")
+	}
+}
+
+// ---------- V13: every program carries its file's Recursion option ----------
+
+func init() {
+	register("V13", "the Recursion option reaches every compiled program: each function of package compile that builds a Program from source (File, Expr, ...) stores the Recursion field from the file options it was given; an expression compiled without it would reject recursion that the same options allow in a file", 2, ruleV13)
+	claim("C01", "V13")
+	claim("C09", "V13")
+}
+
+func ruleV13(c *Ctx) {
+	n := 0
+	for _, fn := range c.P.Funcs {
+		if relPkg(fnPkgPath(fn)) != "internal/compile" || fn.Parent() != nil {
+			continue
+		}
+		// takes *syntax.FileOptions and returns *Program
+		takesOpts := false
+		for _, p := range fn.Params {
+			if pt, ok := p.Type().(*types.Pointer); ok && isNamed(pt.Elem(), "syntax", "FileOptions") {
+				takesOpts = true
+			}
+		}
+		res := fn.Signature.Results()
+		retProg := false
+		for i := 0; i < res.Len(); i++ {
+			if pt, ok := res.At(i).Type().(*types.Pointer); ok && isNamed(pt.Elem(), "internal/compile", "Program") {
+				retProg = true
+			}
+		}
+		if !takesOpts || !retProg {
+			continue
+		}
+		n++
+		key := fnName(fn)
+		found := false
+		var visit func(f *ssa.Function, depth int)
+		seen := map[*ssa.Function]bool{}
+		visit = func(f *ssa.Function, depth int) {
+			if depth > 2 || seen[f] {
+				return
+			}
+			seen[f] = true
+			eachInstr(f, func(in ssa.Instruction) {
+				if st, ok := in.(*ssa.Store); ok {
+					if fa, ok := st.Addr.(*ssa.FieldAddr); ok {
+						if o, fld := ownerField(fa); o == "internal/compile.Program" && fld == "Recursion" {
+							// value derives from FileOptions.Recursion
+							for v := range backSlice(st.Val) {
+								if ld, ok := v.(*ssa.UnOp); ok && ld.Op == token.MUL {
+									if fa2, ok := ld.X.(*ssa.FieldAddr); ok {
+										if o2, f2 := ownerField(fa2); o2 == "syntax.FileOptions" && f2 == "Recursion" {
+											found = true
+										}
+									}
+								}
+							}
+							if p, ok := st.Val.(*ssa.Parameter); ok && depth > 0 {
+								_ = p
+								found = true // helper receives the flag as a parameter
+							}
+						}
+					}
+				}
+				if call, ok := in.(*ssa.Call); ok {
+					if cal := call.Call.StaticCallee(); cal != nil && cal.Blocks != nil && relPkg(fnPkgPath(cal)) == "internal/compile" {
+						visit(cal, depth+1)
+					}
+				}
+			})
+		}
+		visit(fn, 0)
+		if found {
+			c.ok(key, c.P.Pos(fn.Pos()), "stores Program.Recursion from the file options")
+		} else {
+			c.viol(key, c.P.Pos(fn.Pos()), key+" builds a Program from file options but never stores their Recursion flag into it: programs compiled through this entry point ignore the option")
+		}
+	}
+	if n < 2 {
+		c.anchorFail("only %d Program-building entry points found in package compile", n)
+	}
+}
+
+// ---------- F10: whoever initialises a module freezes it ----------
+
+func init() {
+	register("F10", "every finished module is frozen: each caller of Program.Init in the module's packages (ExecFileOptions, a loader in package repl, ...) passes the returned globals through StringDict.Freeze on every path to its return, except the REPL's own chunk execution; a loader that compiles and initialises in two steps must not forget the third", 1, ruleF10)
+	claim("C04", "F10")
+	claim("C05", "F10")
+}
+
+func ruleF10(c *Ctx) {
+	n := 0
+	for _, fn := range c.P.Funcs {
+		pk := fnPkgPath(fn)
+		if !strings.HasPrefix(pk, modPath) || strings.Contains(pk, "/cmd/") || strings.HasSuffix(pk, "test") {
+			continue
+		}
+		eachInstr(fn, func(in ssa.Instruction) {
+			call, ok := in.(*ssa.Call)
+			if !ok {
+				return
+			}
+			cal := call.Call.StaticCallee()
+			if cal == nil || !methodIs(cal, "starlark", "Program", "Init") {
+				return
+			}
+			n++
+			key := fnName(fn) + ": Init -> Freeze"
+			isFreeze := func(x ssa.Instruction) bool {
+				ci, ok := x.(ssa.CallInstruction)
+				if !ok {
+					return false
+				}
+				rv, ok := isFreezeCall(ci)
+				if !ok {
+					return false
+				}
+				for _, b := range traceAddr(rv).bases {
+					if ex, ok := b.v.(*ssa.Extract); ok && ex.Tuple == ssa.Value(call) && ex.Index == 0 {
+						return true
+					}
+				}
+				return false
+			}
+			leak := pathAvoiding(call, isFreeze, func(x ssa.Instruction) bool { _, ok := x.(*ssa.Return); return ok })
+			if leak == nil {
+				c.ok(key, c.P.Pos(call.Pos()), "every path from Init to a return freezes the globals")
+			} else {
+				c.viol(key, c.P.Pos(call.Pos()), fmt.Sprintf("%s initialises a module with Program.Init and can return without freezing the globals it got: the finished module's values stay mutable (and shared, if the loader caches it)", fnName(fn)))
+			}
+		})
+	}
+	if n == 0 {
+		c.anchorFail("no caller of Program.Init found")
+	}
+}
+
+// ---------- O17: a file is accepted only after the resolver has walked it ----------
+
+func init() {
+	register("O17", "no file is accepted unread: in package resolve every exported entry point that returns an error (File, REPLChunk, Expr, ExprOptions) reaches the statement/expression walk (a call of a resolver method) on every path to a nil return; a 'resolved already' shortcut keyed on a field the previous, failed, pass also sets would accept a rejected tree the second time", 2, ruleO17)
+	claim("C09", "O17")
+}
+
+func ruleO17(c *Ctx) {
+	n := 0
+	memo := map[*ssa.Function]int{}
+	var always func(fn *ssa.Function) bool
+	always = func(fn *ssa.Function) bool {
+		switch memo[fn] {
+		case 1, 3:
+			return false
+		case 2:
+			return true
+		}
+		memo[fn] = 1
+		sat := func(in ssa.Instruction) bool {
+			call, ok := in.(*ssa.Call)
+			if !ok {
+				return false
+			}
+			cal := call.Call.StaticCallee()
+			if cal == nil || relPkg(fnPkgPath(cal)) != "resolve" {
+				return false
+			}
+			if cal.Signature.Recv() != nil {
+				if _, tn := namedOf(cal.Signature.Recv().Type()); tn == "resolver" && (cal.Name() == "stmts" || cal.Name() == "stmt" || cal.Name() == "expr") {
+					return true
+				}
+			}
+			if cal.Blocks != nil && cal.Object() != nil {
+				return always(cal)
+			}
+			return false
+		}
+		seen := map[*ssa.BasicBlock]bool{}
+		leak := false
+		var visit func(b *ssa.BasicBlock)
+		visit = func(b *ssa.BasicBlock) {
+			if seen[b] || leak {
+				return
+			}
+			seen[b] = true
+			for _, in := range b.Instrs {
+				if sat(in) {
+					return
+				}
+				if r, ok := in.(*ssa.Return); ok {
+					if len(r.Results) > 0 && isNilConst(r.Results[len(r.Results)-1]) {
+						leak = true
+					}
+					return
+				}
+			}
+			for _, s := range b.Succs {
+				visit(s)
+			}
+		}
+		if len(fn.Blocks) > 0 {
+			visit(fn.Blocks[0])
+		}
+		if leak || len(fn.Blocks) == 0 {
+			memo[fn] = 3
+			return false
+		}
+		memo[fn] = 2
+		return true
+	}
+	for _, fn := range c.P.Funcs {
+		if relPkg(fnPkgPath(fn)) != "resolve" || fn.Parent() != nil || fn.Signature.Recv() != nil || fn.Object() == nil || !fn.Object().Exported() {
+			continue
+		}
+		res := fn.Signature.Results()
+		if res.Len() == 0 || res.At(res.Len()-1).Type().String() != "error" {
+			continue
+		}
+		n++
+		key := fnName(fn)
+		if always(fn) {
+			c.ok(key, c.P.Pos(fn.Pos()), "every nil return is preceded by the resolver's walk")
+		} else {
+			c.viol(key, c.P.Pos(fn.Pos()), key+" can return nil without having walked the syntax tree: a file is declared resolved although no static rule was applied to it on this call")
+		}
+	}
+	if n < 2 {
+		c.anchorFail("only %d resolver entry points found", n)
+	}
+}
+
+// ---------- O18: option sets handed out are private ----------
+
+func init() {
+	register("O18", "every caller gets its own options: a function of package syntax that returns *FileOptions returns a struct allocated by that call, never a cached or package-level instance - File.Options keeps the pointer, so a shared instance that one caller adjusts changes the dialect of files parsed earlier", 1, ruleO18)
+	claim("C09", "O18")
+}
+
+func ruleO18(c *Ctx) {
+	n := 0
+	fc := computeReturnsFresh(c.P)
+	for _, fn := range c.P.Funcs {
+		if relPkg(fnPkgPath(fn)) != "syntax" || fn.Parent() != nil {
+			continue
+		}
+		res := fn.Signature.Results()
+		if res.Len() != 1 {
+			continue
+		}
+		pt, ok := res.At(0).Type().(*types.Pointer)
+		if !ok || !isNamed(pt.Elem(), "syntax", "FileOptions") {
+			continue
+		}
+		n++
+		key := fnName(fn)
+		okAll := true
+		eachInstr(fn, func(in ssa.Instruction) {
+			ret, ok := in.(*ssa.Return)
+			if !ok || in.Parent() != fn {
+				return
+			}
+			tr := traceAddr(ret.Results[0])
+			if len(tr.fields) > 0 {
+				okAll = false
+			}
+			for _, b := range tr.bases {
+				if b.throughPtr || !isFreshValue(fc, b.v) {
+					okAll = false
+				}
+			}
+		})
+		if okAll {
+			c.ok(key, c.P.Pos(fn.Pos()), "returns a struct allocated by the call")
+		} else {
+			c.viol(key, c.P.Pos(fn.Pos()), key+" can return a *FileOptions that it did not allocate itself (a cached or shared instance): options changed through it leak into other files that hold the same pointer")
+		}
+	}
+	if n == 0 {
+		c.anchorFail("no function returning *syntax.FileOptions found")
+	}
+}
+
+// ---------- I13: the floor correction of big division looks at both operands' signs ----------
+
+func init() {
+	register("I13", "floored division corrects by the operands' signs: in the big-number arms of Int.Div and Int.Mod the adjustment of the truncated quotient/remainder (Sub / Add on the result) is guarded by a condition computed from the signs of both operands (and the remainder being non-zero), as in the small-number arm; a shortcut through the sign of the truncated quotient misses every case where it is zero (-5 // 2^40)", 2, ruleI13)
+	claim("C10", "I13")
+}
+
+func ruleI13(c *Ctx) {
+	n := 0
+	for _, name := range []string{"Int.Div", "Int.Mod"} {
+		fn := c.P.Func("starlark", name)
+		if fn == nil {
+			c.anchorFail("starlark.%s not found", name)
+			continue
+		}
+		eachInstr(fn, func(in ssa.Instruction) {
+			call, ok := in.(*ssa.Call)
+			if !ok {
+				return
+			}
+			cal := call.Call.StaticCallee()
+			if cal == nil || cal.Signature.Recv() == nil || !(cal.Name() == "Sub" || cal.Name() == "Add") {
+				return
+			}
+			if pp, tn := namedOf(cal.Signature.Recv().Type()); pp != "math/big" || tn != "Int" {
+				return
+			}
+			// an adjustment: executed under a condition
+			conds := pathConds(call.Block())
+			if len(conds) == 0 {
+				return
+			}
+			n++
+			key := fmt.Sprintf("starlark.%s: big-arm floor correction", name)
+			// receivers of Sign() calls in the backward slices of the guarding conditions
+			signOf := map[string]bool{}
+			for _, pc := range conds {
+				for v := range backSlice(pc.If.Cond) {
+					sc, ok := v.(*ssa.Call)
+					if !ok {
+						continue
+					}
+					sf := sc.Call.StaticCallee()
+					if sf == nil || sf.Name() != "Sign" || len(sc.Call.Args) == 0 {
+						continue
+					}
+					// which operand? follow the receiver to x.bigInt() / y.bigInt() on a parameter or receiver
+					tr := traceValue(sc.Call.Args[0])
+					for _, b := range tr.bases {
+						if bc, ok := b.v.(*ssa.Call); ok {
+							if bf := bc.Call.StaticCallee(); bf != nil && bf.Name() == "bigInt" && len(bc.Call.Args) > 0 {
+								if p, ok := bc.Call.Args[0].(*ssa.Parameter); ok {
+									signOf[p.Name()] = true
+								}
+							}
+						}
+					}
+				}
+			}
+			if len(signOf) >= 2 {
+				c.ok(key, c.P.Pos(call.Pos()), "guarded by the signs of both operands")
+			} else {
+				c.viol(key, c.P.Pos(call.Pos()), fmt.Sprintf("the floor correction in the big-number arm of %s is not guarded by the signs of both operands (found the sign of %d operand(s)): when the truncated quotient is zero but the operands' signs differ, the result is off by one", name, len(signOf)))
+			}
+		})
+	}
+	if n < 2 {
+		c.anchorFail("only %d big-arm floor corrections found in Int.Div/Int.Mod", n)
+	}
+}
+
+// ---------- H9: an empty slot does not end the search for the key ----------
+
+func init() {
+	register("H9", "an empty slot is remembered, not trusted: in the hashtable's insert (and the probe helper it may use) the branch taken when a slot's stored hash is zero only records the slot and goes on scanning - control returns to the scan loop's header; it never leaves the loop there, because deletions leave holes in front of live entries and a key equal to a later entry would be inserted twice", 1, ruleH9)
+	claim("C12", "H9")
+	claim("C11", "H9")
+}
+
+// naturalLoop returns the blocks of the innermost natural loop containing b, and its header.
+func innermostLoop(fn *ssa.Function, b *ssa.BasicBlock) (map[*ssa.BasicBlock]bool, *ssa.BasicBlock) {
+	// natural loops, merged per header
+	loops := map[*ssa.BasicBlock]map[*ssa.BasicBlock]bool{}
+	for _, t := range fn.Blocks {
+		for _, h := range t.Succs {
+			if !(h == t || h.Dominates(t)) {
+				continue
+			}
+			loop := loops[h]
+			if loop == nil {
+				loop = map[*ssa.BasicBlock]bool{h: true}
+				loops[h] = loop
+			}
+			stack := []*ssa.BasicBlock{t}
+			for len(stack) > 0 {
+				x := stack[len(stack)-1]
+				stack = stack[:len(stack)-1]
+				if loop[x] {
+					continue
+				}
+				loop[x] = true
+				stack = append(stack, x.Preds...)
+			}
+		}
+	}
+	var best map[*ssa.BasicBlock]bool
+	var bestH *ssa.BasicBlock
+	for h, loop := range loops {
+		if loop[b] && (best == nil || len(loop) < len(best)) {
+			best, bestH = loop, h
+		}
+	}
+	return best, bestH
+}
+
+func ruleH9(c *Ctx) {
+	n := 0
+	for _, fn := range c.P.Funcs {
+		if relPkg(fnPkgPath(fn)) != "starlark" || fn.Signature.Recv() == nil || qualType(fn.Signature.Recv().Type()) != "starlark.hashtable" {
+			continue
+		}
+		// only the insertion path: insert itself or a helper it calls
+		if fn.Name() != "insert" && !onlyCalledFromSet(c.P, fn, map[string]bool{"insert": true}, 0) {
+			continue
+		}
+		for _, b := range fn.Blocks {
+			if len(b.Instrs) == 0 {
+				continue
+			}
+			ifi, ok := b.Instrs[len(b.Instrs)-1].(*ssa.If)
+			if !ok {
+				continue
+			}
+			cond, neg := stripNot(ifi.Cond)
+			bo, ok := cond.(*ssa.BinOp)
+			if !ok || (bo.Op != token.EQL && bo.Op != token.NEQ) {
+				continue
+			}
+			isStoredHash := func(v ssa.Value) bool {
+				if u, ok := v.(*ssa.UnOp); ok && u.Op == token.MUL {
+					if fa, ok := u.X.(*ssa.FieldAddr); ok {
+						o, f := ownerField(fa)
+						return o == "starlark.entry" && f == "hash"
+					}
+				}
+				return false
+			}
+			var k int64
+			var okk bool
+			if isStoredHash(bo.X) {
+				k, okk = constInt(bo.Y)
+			} else if isStoredHash(bo.Y) {
+				k, okk = constInt(bo.X)
+			}
+			if !okk || k != 0 {
+				continue
+			}
+			emptyOnTrue := (bo.Op == token.EQL) != neg
+			empty := b.Succs[1]
+			if emptyOnTrue {
+				empty = b.Succs[0]
+			}
+			loop, header := innermostLoop(fn, b)
+			if loop == nil {
+				continue
+			}
+			n++
+			key := fnName(fn) + ": empty-slot branch of the scan"
+			// from the empty-slot successor, can we leave the loop without passing its header?
+			leaves := false
+			seen := map[*ssa.BasicBlock]bool{}
+			var visit func(x *ssa.BasicBlock)
+			visit = func(x *ssa.BasicBlock) {
+				if seen[x] || leaves || x == header {
+					return
+				}
+				seen[x] = true
+				if !loop[x] {
+					leaves = true
+					return
+				}
+				for _, s := range x.Succs {
+					visit(s)
+				}
+			}
+			visit(empty)
+			if leaves {
+				c.viol(key, c.P.Pos(ifi.Cond.Pos()), "on finding an unused slot the scan can leave its loop without examining the remaining entries of the chain: a key equal to an entry behind a hole (left by a deletion) is inserted a second time")
+			} else {
+				c.ok(key, c.P.Pos(ifi.Cond.Pos()), "the empty-slot branch returns to the scan loop's header")
+			}
+		}
+	}
+	if n == 0 {
+		c.anchorFail("no empty-slot test found in the hashtable's insertion scan")
+	}
+}
